@@ -556,13 +556,56 @@ static void vf_native(void)
                 canaries=[{"fn": f.name, "rx": r"if \(IFFFF\(v\)\) continue;", "rp": "", "expect": r"%s\.(postcondition|loop_invariant_step)" % cname}])
 
 
+def unit_is_sorted(nmax=6):
+    """VH::isSorted (Route C, both loops closed by invariants): true iff every consecutive pair is strictly ordered in the requested direction."""
+    pre = BOOL + "#define NMAX %d\n#define ORD_(k) (ascending ? W_vec[k] > W_vec[k - 1] : W_vec[k] < W_vec[k - 1])\n" % nmax
+    allp = lambda upto: AND("(%d >= %s || ORD_(%d))" % (k, upto, k) for k in range(1, nmax))
+    contract = "\n".join([
+        "__CPROVER_requires(0 <= vec_size && vec_size <= NMAX && vec == W_vec)",
+        "__CPROVER_assigns()",
+        "__CPROVER_ensures(__CPROVER_return_value == %s)" % allp("vec_size"),
+    ])
+    loop = lambda asc: "\n".join([
+        "__CPROVER_assigns(i)",
+        "__CPROVER_loop_invariant(1 <= i && (i <= nval || nval < 1) && nval == vec_size && %sascending)" % ("" if asc else "!"),
+        "__CPROVER_loop_invariant(%s)" % allp("i"),
+        "__CPROVER_decreases(nval - i)",
+    ])
+    f = Fn("VectorHelper::isSorted", "src/Basic/VectorHelper.cpp", r"^bool VectorHelper::isSorted\(const VectorDouble& vec, bool ascending\)\s*$",
+           csig="bool VH_isSorted(const double* vec, int vec_size, bool ascending)", contract=contract, loops={1: loop(True), 2: loop(False)}, nloops=2,
+           rewrites=[(r"\(int\) vec\.size\(\)", "vec_size", 1)])
+    h = """
+void vf_harness(void)
+{
+  vf_havoc_inputs();
+  VH_isSorted(W_vec, W_n, W_asc);
+  VF_REACH();
+}
+"""
+    native = r"""
+static void vf_native(void)
+{
+  if (!(0 <= W_n && W_n <= NMAX)) exit(77);
+  int r = VH_isSorted(W_vec, W_n, W_asc), e = 1;
+  for (int k = 1; k < W_n; k++) if (!(W_asc ? W_vec[k] > W_vec[k - 1] : W_vec[k] < W_vec[k - 1])) e = 0;
+  __CPROVER_assert(r == e, "true exactly when every consecutive pair is strictly ordered");
+}
+"""
+    return Unit("C11.VH.isSorted", [f], prelude=pre, harness=h, native=native, pre_inputs=BOOL, defines={"NMAX": nmax},
+                inputs=[("double", "W_vec", "NMAX"), ("int", "W_n"), ("bool", "W_asc")], enforce="VH_isSorted", backends=("minisat", "cadical"), timeout=600,
+                fallback_unwind=nmax + 2,
+                claim="VH::isSorted returns true exactly when every consecutive pair is strictly ordered in the requested direction (ties and NaN: false); nothing written; both loops closed by invariants (length <= %d)" % nmax,
+                assumptions=["at most %d elements (quantifier range)" % nmax, "const VectorDouble& -> (const double*, int)", "strict order, as the code defines it"],
+                canaries=[{"fn": f.name, "rx": r"if \(vec\[i\] < vec\[i - 1\]\) continue;", "rp": "if (vec[i] > vec[i - 1]) continue;", "expect": r"VH_isSorted\.(postcondition|loop_invariant_step)"}])
+
+
 def units(tier):
-    return [unit_dense_dims(), unit_sparse_dims(), unit_normmatrix(), unit_where("Minimum"), unit_where("Maximum"), unit_where_element(), unit_extremum("maximum"), unit_extremum("minimum"), unit_extremum_vv("maximum"), unit_extremum_vv("minimum"), unit_extremum_int("maximum"), unit_extremum_int("minimum")]
+    return [unit_dense_dims(), unit_sparse_dims(), unit_normmatrix(), unit_where("Minimum"), unit_where("Maximum"), unit_where_element(), unit_extremum("maximum"), unit_extremum("minimum"), unit_extremum_vv("maximum"), unit_extremum_vv("minimum"), unit_extremum_int("maximum"), unit_extremum_int("minimum"), unit_is_sorted()]
 
 
 META = {
     "level": "other",
-    "explanation": "(the two dimension units and the nine VH units (whereMinimum, whereMaximum, whereElement, maximum, minimum, their vector-of-vectors and VectorInt forms) are unbounded proofs, normMatrix.terms is a bounded stand-in, hence level 'other') Shape/index contracts of the Eigen-backed dense kernels and sparse product kernels for every shape; extremum-rank contracts of VH::whereMinimum / whereMaximum (loop invariant); numerical values, sparse storage, decompositions and thread-count independence are not decidable here.",
+    "explanation": "(the two dimension units and the ten VH units (whereMinimum, whereMaximum, whereElement, isSorted, maximum, minimum, their vector-of-vectors and VectorInt forms) are unbounded proofs, normMatrix.terms is a bounded stand-in, hence level 'other') Shape/index contracts of the Eigen-backed dense kernels and sparse product kernels for every shape; extremum-rank contracts of VH::whereMinimum / whereMaximum (loop invariant); numerical values, sparse storage, decompositions and thread-count independence are not decidable here.",
     "trusted_base": ["CBMC 6.11 C++ front end", "Eigen (numerics)", "stub classes"],
     "assumptions": [],
     "not_covered": ["values computed by Eigen/csparse", "csparse storage of MatrixSparse and its non-product methods", "Cholesky / eigen-decomposition", "thread-count independence (no thread model)",
